@@ -120,7 +120,10 @@ func (tdBindStream) Rule() string {
 
 var tdDNs = []string{"cn=alice,ou=people,dc=example,dc=org", "cn=alice,ou=people,dc=example,dc=org ", "cn=alice", "cn=alic", "CN=ALICE,ou=people,dc=example,dc=org",
 	"cn=bob,ou=people,dc=example,dc=org", "", "cn=eve,ou=people,dc=example,dc=org"}
-var tdPws = []string{"password", "passwor", "password1", "", "Password", "p", "\x00"}
+var tdPws = []string{"password", "passwor", "password1", "", "Password", "p", "\x00", tdLong, tdLong[:128] + "X" + tdLong[129:], tdLong[:199] + "X", tdLong[:150] + "X" + tdLong[151:]}
+
+// passwords longer than any fixed-size buffer one might compare them in, differing only far from their beginning
+var tdLong = strings.Repeat("0123456789abcdef", 12) + "01234567"
 
 func genTdUsers(rng *rand.Rand) []tdEntry {
 	n := rng.Intn(6)
